@@ -3,7 +3,7 @@ import ast
 
 from ..core import AnalysisError, dotted, walk_no_nested, FuncTypes
 from ..cfg import CFG
-from ..util import calls_in, local_defs, depends_on, const_val, names_in
+from ..util import calls_in, local_defs, depends_on, const_val, names_in, if_chain
 from .. import mergefacts as mf
 from .. import facts
 
@@ -30,6 +30,8 @@ def run(ctx):
     ctx.rule('R09.1', 'every action the Python merger can emit is in the schema enum', floor=7)
     ctx.rule('R09.2', 'decision fields = schema properties + internal fields, and the internal ones are deleted on the one exit (validated) every public producer returns through', floor=6)
     ctx.rule('R09.3', 'every returned decision list is the result of the one sort; producers do not re-order after it; apply iterates in given order', floor=4)
+    ctx.rule('R09.5', 'concurrent-insert splitter: in every arm `taken` advances by the local items and `offset` by (remote - local) items of the decision it emits (sibling cross-check, linear algebra on the source)', floor=4)
+    ctx.rule('R09.6', 'decisions made where both sides changed something carry both sides\' diffs (lossless reconstruction of either side)', floor=15)
     ctx.rule('R09.4', 'diff entry constructors carry exactly the fields of the diff schema; DiffEntry is otherwise only copied', floor=8)
 
     enum, props, addl = schema_actions(repo)
@@ -161,6 +163,32 @@ def run(ctx):
              'decisions are applied in the order given' if ok else 'apply_decisions re-orders or filters the decisions it is given',
              loops[0] if loops else ap)
 
+    split_addrange_algebra(ctx, 'R09.5')
+    # ---------------------------------------------------------------- R09.6 two-sided situations record both sides' diffs
+    gen_mod = repo.mod(GEN)
+    md = repo.func(GEN + ':_merge_dicts')
+    dchain = None
+    for n in walk_no_nested(md):
+        if isinstance(n, ast.If) and 'parent_deleted' in [cc.value for cc in ast.walk(n.test) if isinstance(cc, ast.Constant)]:
+            dchain = n
+    if dchain is None:
+        raise AnalysisError('_merge_dicts chain not found')
+    for c in [x for x in ast.walk(dchain) if isinstance(x, ast.Call) and isinstance(x.func, ast.Attribute) and dotted(x.func.value) == 'decisions'
+              and x.func.attr not in ('extend',)]:
+        args = c.args[1:3]
+        empty = [a for a in args if (isinstance(a, ast.Constant) and a.value is None) or (isinstance(a, (ast.List, ast.Tuple)) and not a.elts)]
+        ok = c.func.attr != 'onesided' and len(args) == 2 and not empty
+        ctx.inst('R09.6', GEN + ':_merge_dicts', repo.norm(c), ok,
+                 'both sides\' entries are recorded in the decision' if ok else
+                 'a key changed on BOTH sides is recorded with only one side\'s diff: choosing the other side for every decision no longer reproduces that notebook', c)
+    ml = repo.func(GEN + ':_merge_lists')
+    for c in [x for x in calls_in(ml, nested=False) if isinstance(x.func, ast.Attribute) and dotted(x.func.value) == 'decisions' and x.func.attr not in ('extend',)]:
+        args = c.args[1:3]
+        empty = [a for a in args if (isinstance(a, ast.Constant) and a.value is None) or (isinstance(a, (ast.List, ast.Tuple)) and not a.elts)]
+        ok = len(args) == 2 and not empty
+        ctx.inst('R09.6', GEN + ':_merge_lists', repo.norm(c), ok, 'both sides\' diffs of the chunk are passed' if ok else
+                 'a chunk decision drops one side\'s diff', c)
+
     # ---------------------------------------------------------------- R09.4
     ds = repo.json('nbdime/diff_format.schema.json')
     consts = mf.diffop_consts(repo)
@@ -211,3 +239,72 @@ def _plain_copy_chain(fn, val, src_call, defs):
                 if kind in ('assign', 'unpack'):
                     cur.append(v)
     return False
+
+
+def split_addrange_algebra(ctx, rule):
+    """Sibling cross-check of the cursor arithmetic in _split_addrange (shared by C09 R09.5 and C03 R03.7)."""
+    repo, cg = ctx.repo, ctx.cg
+    # ---------------------------------------------------------------- R09.5 cursor algebra of the concurrent-insert splitter
+    from ..linalg import lin, seq_len, eq, sub, fmt
+    sa = repo.func(GEN + ':_split_addrange')
+    wl = [n for n in walk_no_nested(sa) if isinstance(n, ast.While)]
+    if len(wl) != 1:
+        raise AnalysisError('_split_addrange: main loop not found')
+    chains = [st for st in wl[0].body if isinstance(st, ast.If) and any(isinstance(c, ast.Call) and isinstance(c.func, ast.Attribute) and dotted(c.func.value) == 'decisions'
+                                                                          for c in ast.walk(st))]
+    chain5 = max(chains, key=lambda st: len(if_chain(st)[0])) if chains else None
+    if chain5 is None:
+        raise AnalysisError('_split_addrange: arm chain not found')
+    arms5, else5 = if_chain(chain5)
+    n_arms = 0
+    for test, body, node in arms5:
+        env = {}
+        d_off, d_taken = {}, {}
+        dec_calls = []
+
+        def walk_arm(stmts):
+            nonlocal d_off, d_taken
+            for st in stmts:
+                if isinstance(st, ast.Assign) and len(st.targets) == 1 and isinstance(st.targets[0], ast.Name):
+                    env.setdefault(st.targets[0].id, []).append(st.value)
+                elif isinstance(st, ast.AugAssign) and isinstance(st.target, ast.Name) and st.target.id in ('offset', 'taken', 'i'):
+                    v = lin(st.value, env)
+                    if isinstance(st.op, ast.Sub) and v is not None:
+                        v = {k: -c for k, c in v.items()}
+                    if st.target.id == 'offset':
+                        d_off = None if (v is None or d_off is None) else {k: c for k, c in {**d_off, **{k2: d_off.get(k2, 0) + c2 for k2, c2 in v.items()}}.items() if c}
+                    elif st.target.id == 'taken':
+                        d_taken = None if (v is None or d_taken is None) else {k: c for k, c in {**d_taken, **{k2: d_taken.get(k2, 0) + c2 for k2, c2 in v.items()}}.items() if c}
+                elif isinstance(st, ast.If):
+                    walk_arm(st.body)
+                    walk_arm(st.orelse)
+                for c in ast.walk(st):
+                    if isinstance(c, ast.Call) and isinstance(c.func, ast.Attribute) and dotted(c.func.value) == 'decisions' and not isinstance(st, ast.If):
+                        dec_calls.append(c)
+        walk_arm(body)
+        if not dec_calls:
+            continue
+        n_arms += 1
+        c = dec_calls[0]
+
+        def side_len(arg):
+            # [op_addrange(key, X)] -> len(X);  []/None -> 0;  name -> its single definition
+            e = arg
+            if isinstance(e, ast.Name) and e.id in env and len(env[e.id]) == 1:
+                e = env[e.id][0]
+            if e is None or (isinstance(e, ast.Constant) and e.value is None) or (isinstance(e, ast.List) and not e.elts):
+                return {}
+            if isinstance(e, ast.List) and len(e.elts) == 1 and isinstance(e.elts[0], ast.Call) and dotted(e.elts[0].func) == 'op_addrange' and len(e.elts[0].args) == 2:
+                return seq_len(e.elts[0].args[1], env)
+            return None
+        l_len = side_len(c.args[1]) if len(c.args) > 1 else None
+        r_len = side_len(c.args[2]) if len(c.args) > 2 else None
+        ok_t = eq(d_taken if d_taken is not None else None, l_len)
+        ok_o = eq(d_off if d_off is not None else None, sub(r_len, l_len))
+        ctx.inst(rule, GEN + ':_split_addrange', 'arm `%s`: local items %s, remote items %s, taken += %s, offset += %s' % (
+            ast.unparse(test)[:50], fmt(l_len), fmt(r_len), fmt(d_taken), fmt(d_off)), ok_t and ok_o,
+            'cursor `taken` advances by the local items consumed and `offset` by (remote - local) items, like in every sibling arm' if ok_t and ok_o else
+            ('`taken` does not advance by the number of local items put into the decision' if not ok_t else
+             '`offset` does not change by (remote items - local items): later similar-insert decisions are built from the wrong remote cell'), node)
+    if n_arms < 4:
+        raise AnalysisError('_split_addrange: fewer decision arms than expected (%d)' % n_arms)
